@@ -23,16 +23,18 @@ const ModPath = "github.com/form3tech-oss/f1/v2"
 
 // Ctx is the resolved program every rule works on.
 type Ctx struct {
-	Repo     string
-	Tier     string
-	Fset     *token.FileSet
-	Pkgs     []*packages.Package          // module packages (non-test)
-	ByRel    map[string]*packages.Package // "internal/workers" -> package
-	Prog     *ssa.Program
-	SSA      map[string]*ssa.Package // rel path -> ssa package
-	AllFuncs []*ssa.Function         // every module function, method and function literal with a body
-	GOARCH   string
-	vta      *callgraph.Graph
+	Repo string
+	// Devirtualized counts the dynamic calls with a single possible target rewritten to static form (devirt.go).
+	Devirtualized int
+	Tier          string
+	Fset          *token.FileSet
+	Pkgs          []*packages.Package          // module packages (non-test)
+	ByRel         map[string]*packages.Package // "internal/workers" -> package
+	Prog          *ssa.Program
+	SSA           map[string]*ssa.Package // rel path -> ssa package
+	AllFuncs      []*ssa.Function         // every module function, method and function literal with a body
+	GOARCH        string
+	vta           *callgraph.Graph
 }
 
 // VTA builds (once) the whole-program VTA call graph over a CHA graph: the most precise resolution of
@@ -173,6 +175,7 @@ func Load(repo, overlayDir, goarch string) (*Ctx, error) {
 		}
 		return c.AllFuncs[i].String() < c.AllFuncs[j].String()
 	})
+	devirtualize(c)
 	return c, nil
 }
 
